@@ -38,7 +38,12 @@ Definition P0 : paging := fun oid =>
 
 (* the hypotheses of the theorems are satisfiable *)
 Theorem C18_sample_wf :
-  server_wf E0 (s "SITE") None P0 T0 && nonempty (s "TOK") && fault_ok (FStatus (Some 500%Z)) && fault_ok FNonObj
+  server_wf E0 (s "SITE") None P0 T0 && server_wf E0 (s "SITE") (Some (s "drv")) P0 T0
+  && nonempty (s "TOK") && fault_ok (FStatus (Some 500%Z)) && fault_ok FNonObj && fault_ok FOs && fault_ok FRead
+  && fault_ok (FBadPage {| o_value := []; o_next := None; o_id := None; o_token := None; o_folder := false; o_ok := false |})
+  && Nat.eqb (List.length (spec_target E0 (s "SITE") None T0 (s "/Docs/Sub/"))) 1
+  && Nat.eqb (List.length (spec_target E0 (s "SITE") None T0 (s "Docs"))) 2
+  && Nat.eqb (List.length (spec_target E0 (s "SITE") None T0 (s "a.txt"))) 0
   && forallb (comparable E0 {| created_after := None; created_before := None; modified_after := None;
                               modified_before := None; folder_paths := []; path_patterns := [s "*"];
                               extensions := [s ".pdf"] |}) (spec_files E0 [] T0)
